@@ -28,6 +28,12 @@ class Mon(Monitor):
                         self.see('pubrel-repeat')
             elif p['type'] == 'PUBLISH' and p.get('req') is not None:
                 r = w.reqs[p['req']]
+                for e in pubs(w, r.addr):
+                    if e is not r and e.qos == 2 and e.msgId == p['msgId'] and e.pending and e.tx and \
+                            (e.idx < r.idx):
+                        out.append(V('end', 'identifier-reused-before-pubcomp/%s' % ('released' if e.rel_tx else 'sent'),
+                                     'PUBLISH of request %d carries identifier %d while the QoS 2 exchange of request %d '
+                                     'is not finished' % (r.idx, p['msgId'], e.idx)))
                 if r.qos == 2 and r.rel_tx and (r.rel_tx[0][0] < w.step or self._rel_before(w, o, r)):
                     out.append(V('order', 'publish-after-pubrel/on-%s' % ev[0],
                                  'PUBLISH(%r) of request %d written again after its PUBREL went out' % (p['msgId'], r.idx)))
@@ -83,7 +89,22 @@ def scenarios(ctx):
                    connects=[(False, 0, 3)], reconnects=[(False, 0, 3)], pub_qos=(2,),
                    budgets=dict(pub=1 if q else 2, ack=2 if q else 4, dack=1, tick=3, lose=2, rebuild=2, connect=2,
                                 connack=2)))
+    out.append(Wrap('pub-q2-wrap', profile='pub', init=CONNECTED_P + (('setwin', 0, 2),), connects=[(False, 0, 4)],
+                    reconnects=[(False, 0, 4)], pub_qos=(1, 2),
+                    budgets=dict(pub=3, ack=2 if q else 3, setid=1, tick=1, lose=0 if q else 1, rebuild=1, connect=1, connack=1)))
     return out
+
+
+class Wrap(Std):
+    """Adds: place the identifier counter just below the identifier of the oldest unfinished request."""
+
+    def enabled(self, w):
+        out = Std.enabled(self, w)
+        if self.used(w).get('setid', 0) < self.budgets.get('setid', 0):
+            live = [r.msgId for r in w.reqs if r.kind == 'pub' and r.pending and r.msgId]
+            if live:
+                out.append(('setid', 0, (min(live) - 1) % 65536))
+        return out
 
 
 def run(ctx):
